@@ -20,7 +20,7 @@ def Expr.wf : Expr → Bool
   | .compare _ left rest => left.wf && (!rest.isEmpty && wfCmp rest)
   | .ifexp _ c t e => c.wf && (t.wf && e.wf)
   | .display _ es => wfList es
-  | .comp _ _ _ => true
+  | .comp _ _ first _ => first.wf
   -- second version: a starred expression may only be an element of a display or a positional argument
   | .starred _ _ => false
   | .coll _ _ es => wfElts es
@@ -63,7 +63,7 @@ def outerIds : Expr → List Nat
   | .compare i left rest => i :: (outerIds left ++ outerIdsCmp rest)
   | .ifexp i c t e => i :: (outerIds c ++ outerIds t ++ outerIds e)
   | .display i es => i :: outerIdsList es
-  | .comp i _ _ => [i]
+  | .comp i _ first _ => i :: outerIds first
   | .starred i e => i :: outerIds e
   | .coll i _ es => i :: outerIdsList es
   | .dict i items => i :: outerIdsItems items
@@ -104,7 +104,7 @@ def Expr.orderFaithful : Expr → Bool
   | .compare _ left rest => left.orderFaithful && orderFaithfulCmp rest
   | .ifexp _ c t e => c.orderFaithful && (t.orderFaithful && e.orderFaithful)
   | .display _ es => orderFaithfulList es
-  | .comp _ _ _ => true
+  | .comp _ _ first _ => first.orderFaithful
   | .starred _ e => e.orderFaithful
   | .coll _ _ es => orderFaithfulList es
   | .dict _ items => orderFaithfulItems items
